@@ -216,6 +216,7 @@ class Analysis:
         self.assume = assume or {}      # argument local (or "upvar:<name>" of a closure) -> constant value assumed at entry (bounded instantiation)
         self.is_closure = bool(facts is not None and facts.heads.get(body.path, {}).get("bkind") == "closure")
         self.param_views = {}
+        self.stepby_bounds = {}
         self.engine = engine
         self.inv = invariants or {}
         self.b = body
@@ -483,6 +484,102 @@ class Analysis:
                 self.untracked.add(p["l"])
         self.mutborrow = alias
         self.pos_sums = self._find_position_sums()
+        self.stepby_bounds = self._find_stepby_bounds()
+
+    def _find_stepby_bounds(self):
+        """{id(statement): (lo operand, hi operand, local)} for the statements that bind the value of
+        `for x in (lo..hi).step_by(k)`: StepBy over a Range yields values of the range only.  The bounds must be constants,
+        parameters or variables assigned once (so that they still hold their value inside the loop)."""
+        b = self.b
+        out = {}
+        steps = [(bi, t) for bi, t in b.calls() if (b.callee_q(t) or "").endswith("::step_by") and len(t["args"]) == 2 and not place_proj(t["dest"])]
+        if not steps:
+            return out
+
+        def stable(o):
+            if o.get("k") is not None:
+                return True
+            pl = op_place(o)
+            if pl is None or place_proj(pl):
+                return False
+            l = pl["l"]
+            for _ in range(6):
+                if 1 <= l <= b.nargs:
+                    return len(b.defs().get(l, [])) == 0
+                ds = b.defs().get(l, [])
+                if len(ds) != 1 or ds[0][1] == "t":
+                    return len(ds) == 1 and bool(b.local_name(l))
+                rv = b.blocks[ds[0][0]]["s"][ds[0][1]]["rv"]
+                if rv["k"] in ("use", "cast") and rv["o"].get("k") is not None:
+                    return True
+                q = op_place(rv["o"]) if rv["k"] in ("use", "cast") else None
+                if q is None or place_proj(q):
+                    return bool(b.local_name(l))
+                l = q["l"]
+            return False
+        for bs, ts in steps:
+            r0 = op_place(ts["args"][0])
+            if r0 is None or place_proj(r0):
+                continue
+            rv = b.def_rvalue(r0["l"])
+            if rv is None or rv["k"] != "agg" or "ops::Range" not in str(rv.get("adt", "")) or "Inclusive" in str(rv.get("adt", "")):
+                continue
+            f = dict(zip(rv.get("fields") or [], rv["ops"]))
+            lo, hi = f.get("start"), f.get("end")
+            if lo is None or hi is None or not stable(lo) or not stable(hi):
+                continue
+
+            def rooted(o):
+                # the parameter / variable an operand is a copy of (the temporary itself is dead once it was moved into the range)
+                if o.get("k") is not None:
+                    return o
+                l = op_place(o)["l"]
+                for _ in range(6):
+                    if 1 <= l <= b.nargs or b.local_name(l):
+                        break
+                    ds = b.defs().get(l, [])
+                    if len(ds) != 1 or ds[0][1] == "t":
+                        break
+                    rvx = b.blocks[ds[0][0]]["s"][ds[0][1]]["rv"]
+                    if rvx["k"] in ("use", "cast") and rvx["o"].get("k") is not None:
+                        return rvx["o"]
+                    q = op_place(rvx["o"]) if rvx["k"] in ("use", "cast") else None
+                    if q is None or place_proj(q):
+                        break
+                    l = q["l"]
+                return {"c": {"l": l}}
+            lo, hi = rooted(lo), rooted(hi)
+            # iterator locals: the StepBy value and what it is moved into
+            its = {ts["dest"]["l"]}
+            for _ in range(4):
+                for bi, t in b.calls():
+                    if (b.callee_q(t) or "").endswith("::into_iter") and t["args"] and not place_proj(t["dest"]):
+                        a0 = op_place(t["args"][0])
+                        if a0 is not None and not place_proj(a0) and a0["l"] in its:
+                            its.add(t["dest"]["l"])
+                for bi, si, st in b.stmts():
+                    if st["rv"]["k"] == "use" and not place_proj(st["p"]):
+                        q = op_place(st["rv"]["o"])
+                        if q is not None and not place_proj(q) and q["l"] in its:
+                            its.add(st["p"]["l"])
+            # next(&mut it) -> Option<usize>; its payload bindings
+            opts = set()
+            for bi, t in b.calls():
+                if (b.callee_q(t) or "").endswith("::next") and t["args"] and not place_proj(t["dest"]):
+                    a0 = op_place(t["args"][0])
+                    if a0 is None or place_proj(a0):
+                        continue
+                    rv0 = b.def_rvalue(a0["l"])
+                    tgt = self.mutborrow.get(a0["l"])       # `&mut *(&mut it)` chains are resolved by the pre-pass
+                    if (rv0 is not None and rv0["k"] == "ref" and not place_proj(rv0["p"]) and rv0["p"]["l"] in its) or \
+                            (tgt is not None and not place_proj(tgt) and tgt["l"] in its):
+                        opts.add(t["dest"]["l"])
+            for bi, si, st in b.stmts():
+                if st["rv"]["k"] == "use" and not place_proj(st["p"]):
+                    src = op_place(st["rv"]["o"])
+                    if src is not None and src["l"] in opts and any(e[0] == "dc" for e in place_proj(src)):
+                        out[id(st)] = (lo, hi, st["p"]["l"])
+        return out
 
     def _param_byte_views(self):
         """{bytes parameter: str parameter} for a private function all of whose call sites pass `x.as_bytes()` for the former
@@ -977,6 +1074,23 @@ class Analysis:
 
     # ------------------------------------------------------------------ transfer
     def stmt(self, z, s):
+        self._stmt_core(z, s)
+        # the value a `(a..b).step_by(k)` loop binds lies in a..b
+        sb = self.stepby_bounds.get(id(s)) if self.stepby_bounds else None
+        if sb is not None and not z.bottom:
+            lo, hi, l = sb
+            name = "_%d" % l
+            if name in self.info or True:
+                nm = self._register(name, l, name, set(), self.b.locals[l] in UNSIGNED)
+                a = self.lin(z, lo, "usize")
+                c = self.lin(z, hi, "usize")
+                self._touch(z, nm)
+                if a is not None:
+                    z.add(a[0], nm, -a[1])          # lo <= p
+                if c is not None:
+                    z.add(nm, c[0], c[1] - 1)       # p <= hi - 1
+
+    def _stmt_core(self, z, s):
         if z.bottom:
             return
         p, rv = s["p"], s["rv"]
